@@ -332,6 +332,16 @@ class Ctx:
         abs_ = self.ABS_TOL if abs_ is None else abs_
         return abs(a - b) <= abs_ + rel * max(abs(a), abs(b))
 
+    def approx(self, a, b, tol=1e-9):
+        """|a - b| <= tol, as a solver obligation (used where the code itself carries rounded constants such as
+        cos(pi/4): an exact identity cannot hold, the claim is then 'to within tol' over the reals)"""
+        a = self.val(a)
+        b = self.val(b)
+        if self.sym:
+            d = a - b
+            return self.And(d <= tol, -d <= tol)
+        return abs(float(a) - float(b)) <= max(tol, self.ABS_TOL) + self.REL_TOL * max(abs(float(a)), abs(float(b)))
+
     def eq_all(self, xs, ys, **k):
         xs = self.vals(xs)
         ys = self.vals(ys)
